@@ -1040,6 +1040,15 @@ func rankText(w *load.World, c *core.Collector) {
 	// an empty set — would drop out of the intersection, and containsAll would match without it)
 	{
 		isSetAppend := func(in ssa.Instruction) bool {
+			// sets[i] = item.set: a slice of the right length filled by index
+			if st, ok := in.(*ssa.Store); ok {
+				if ia, ok := st.Addr.(*ssa.IndexAddr); ok {
+					if sl, ok := ia.X.Type().Underlying().(*types.Slice); ok && strings.HasSuffix(sl.Elem().String(), "roaring64.Bitmap") {
+						return true
+					}
+				}
+				return false
+			}
 			call, ok := in.(*ssa.Call)
 			if !ok {
 				return false
